@@ -9,6 +9,7 @@ import (
 	"io"
 	"net"
 	"sync"
+	"syscall"
 )
 
 // ---------------------------------------------------------------- guards (E1)
@@ -191,6 +192,22 @@ func badTaintClosure(c net.Conn) {
 	report := func(e error) { sink(e) }
 	_, err := c.Write(nil)
 	report(err)
+}
+
+func badTaintOutParam(c net.Conn) {
+	_, err := c.Read(make([]byte, 1))
+	var op *net.OpError
+	if errors.As(err, &op) {
+		sink("cause:", op.Err)
+	}
+}
+
+func okTaintErrno(c net.Conn) {
+	_, err := c.Read(make([]byte, 1))
+	var errno syscall.Errno
+	if errors.As(err, &errno) {
+		sink("errno:", errno)
+	}
 }
 
 // ---------------------------------------------------------------- draw order (C01.4)
